@@ -1361,9 +1361,16 @@ def apply_monkey_patches() -> Iterator[None]:
                 st = _PATCH_STATE.get(key)
                 if st is None:
                     orig = getattr(tgt, attr)
+                    namespace = getattr(tgt, "__dict__", None)
+                    # an attribute the target only inherits is restored by deleting the override
+                    inherited = namespace is not None and attr not in namespace
                     new = patch_fn(orig)
                     setattr(tgt, attr, new)
-                    _PATCH_STATE[key] = {"orig": orig, "count": 1}
+                    _PATCH_STATE[key] = {
+                        "orig": orig,
+                        "count": 1,
+                        "inherited": inherited,
+                    }
                 else:
                     st["count"] += 1
                 touched.append(key)
@@ -1377,7 +1384,13 @@ def apply_monkey_patches() -> Iterator[None]:
             if st["count"] == 0:
                 tgt, attr = key
                 try:
-                    setattr(tgt, attr, st["orig"])
+                    if st.get("inherited"):
+                        try:
+                            delattr(tgt, attr)
+                        except AttributeError:
+                            setattr(tgt, attr, st["orig"])
+                    else:
+                        setattr(tgt, attr, st["orig"])
                 finally:
                     _PATCH_STATE.pop(key, None)
 
